@@ -172,6 +172,12 @@ def hypergraph_static(level="full"):
     A("H.set_edge_attributes({0: {'w': 2}, 9: {'w': 3}})")
     A("H.set_edge_attributes(1.5, name='w')")
     A("H.set_edge_attributes({0: 7}, name='w')")
+    # unknown IDs at every position of the mapping (documented: ignored / warned about, the known ones are still set)
+    A("H.set_edge_attributes({9: 7, 0: 8, 2: 9}, name='w')")
+    A("H.set_edge_attributes({0: 8, 9: 7, 2: 9}, name='w')")
+    A("H.set_edge_attributes({9: {'w': 3}, 0: {'w': 2}, 2: {'v': 1}})")
+    A("H.set_node_attributes({9: 7, 1: 8, 3: 9}, name='c')")
+    A("H.set_node_attributes({9: {'c': 2}, 1: {'c': 1}, 3: {'d': 0}})")
     A("H.__setitem__('name', 'x')")
     # in-place library helpers
     A("H.cleanup()")
@@ -478,6 +484,12 @@ def dihypergraph_static():
     A("H.set_node_attributes(5, name='x')")
     A("H.set_edge_attributes({0: {'w': 2}, 9: {'w': 3}})")
     A("H.set_edge_attributes(1.5, name='w')")
+    # unknown IDs at every position of the mapping (documented: ignored / warned about, the known ones are still set)
+    A("H.set_edge_attributes({9: 7, 0: 8, 2: 9}, name='w')")
+    A("H.set_edge_attributes({0: 8, 9: 7, 2: 9}, name='w')")
+    A("H.set_edge_attributes({9: {'w': 3}, 0: {'w': 2}, 2: {'v': 1}})")
+    A("H.set_node_attributes({9: 7, 1: 8, 3: 9}, name='c')")
+    A("H.set_node_attributes({9: {'c': 2}, 1: {'c': 1}, 3: {'d': 0}})")
     A("H.__setitem__('name', 'x')")
     A("H.cleanup()")
     A("H.cleanup(relabel=False)")
@@ -610,6 +622,12 @@ def simplicial_static():
     A("H.cleanup(isolates=True, connected=False, relabel=False)")
     A("H.set_node_attributes({1: {'c': 1}})")
     A("H.set_edge_attributes(1.5, name='w')")
+    # unknown IDs at every position of the mapping (documented: ignored / warned about, the known ones are still set)
+    A("H.set_edge_attributes({9: 7, 0: 8, 2: 9}, name='w')")
+    A("H.set_edge_attributes({0: 8, 9: 7, 2: 9}, name='w')")
+    A("H.set_edge_attributes({9: {'w': 3}, 0: {'w': 2}, 2: {'v': 1}})")
+    A("H.set_node_attributes({9: 7, 1: 8, 3: 9}, name='c')")
+    A("H.set_node_attributes({9: {'c': 2}, 1: {'c': 1}, 3: {'d': 0}})")
     A("H.__setitem__('name', 'x')")
     return ops
 
